@@ -1,6 +1,7 @@
 package sim
 
 import (
+	"context"
 	"fmt"
 	"runtime/debug"
 	"sort"
@@ -36,6 +37,10 @@ func c18ServerRun(e *Env) {
 	period := []time.Duration{4 * time.Second, time.Second, 16 * time.Second}[t.Choose(3)]
 	maxRetries := uint32(1 + t.Choose(3))
 	nPeers := 2 + t.Choose(3)
+	hsDur := []time.Duration{0, period / 2, period + time.Second, 3 * period}[t.Choose(4)]
+	if hsDur > 4*time.Second {
+		hsDur = 4 * time.Second // the servers give a handshake 5 s
+	}
 	timeout := period * time.Duration(maxRetries+1)
 	closedByMonitor := map[string]int{}
 	mon := &c10MonitorOpts{
@@ -84,9 +89,27 @@ func c18ServerRun(e *Env) {
 		}
 		peers[i] = p
 		w.clients = append(w.clients, p.c)
+		if kind == "dtls" && hsDur > 0 {
+			// a slow handshake (lossy link, slow peer): the records of the handshake are messages of the peer too, so the
+			// idle period cannot start before the connection is established
+			p.c.handshake = func(ctx context.Context) error {
+				select {
+				case <-time.After(hsDur):
+					return nil
+				case <-ctx.Done():
+					return ctx.Err()
+				}
+			}
+		}
 		w.connect(p.c)
 	}
 	e.Wait()
+	if kind == "dtls" && hsDur > 0 {
+		e.Fault("handshake.slow")
+		e.Sleep(hsDur)
+		e.Wait()
+	}
+	established := e.Now()
 	e.Logf("cfg server=%s period=%v maxRetries=%d peers=%d", kind, period, maxRetries, nPeers)
 	for _, p := range peers {
 		e.Logf("peer %d (%s) alive=%v", p.c.id, p.c.addr, p.alive)
@@ -141,6 +164,24 @@ func c18ServerRun(e *Env) {
 		defer w.mu.Unlock()
 		return w.newConns[p.c.addr.String()] > 0
 	}
+	if kind == "dtls" && hsDur > 0 {
+		// right after the (slow) handshake: a quarter of a period later nobody can have been idle for a full period
+		e.Sleep(period / 4)
+		w.tick(time.Now())
+		e.Wait()
+		e.Logf("advance %v + tick (right after the handshake)", period/4)
+		for _, p := range peers {
+			for _, m := range recv(p) {
+				if m.Type == TCON && m.Code == 0 {
+					e.Violate("C18.R1", "ping-without-idle-period:after-handshake", "peer %d was pinged %v after its connection was established (handshake took %v, period %v): the idle period started before the handshake had finished", p.c.id, e.Now()-established, hsDur, period)
+				}
+			}
+			if !live(p) {
+				e.Violate("C18.R1", "closed-without-a-full-idle-period:after-handshake", "peer %d was closed %v after its connection was established (handshake took %v, period %v)", p.c.id, e.Now()-established, hsDur, period)
+				return
+			}
+		}
+	}
 	// every peer opens its connection with one request (a datagram server learns about a peer from its first message)
 	for _, p := range peers {
 		send(p, &WMsg{Type: TNON, Code: 1, MID: uint16(100 + p.c.id), Token: []byte{0xc0, byte(p.c.id)}, Opts: []WOpt{{Num: OptURIPath, Val: []byte("echo")}}})
@@ -193,6 +234,9 @@ func c18ServerRun(e *Env) {
 				continue
 			}
 			p.closed, p.closedAt, p.pingsAtClose = true, e.Now(), p.pings
+			if e.Now() < established+period {
+				e.Violate("C18.R1", "closed-without-a-full-idle-period:after-handshake", "peer %d was closed %v after its connection was established (handshake took %v, period %v): the idle period started before the handshake had finished", p.c.id, e.Now()-established, hsDur, period)
+			}
 			e.Logf("connection of peer %d is closed (pings sent to it so far: %d)", p.c.id, p.pings)
 			if p.alive {
 				e.Violate("C18.R5", "answering-peer-closed", "peer %d answered every one of its %d pings at once and its connection was closed by keep-alive (maxRetries=%d; other peers: %s)", p.c.id, p.pings, maxRetries, c18Others(peers, p))
